@@ -87,6 +87,15 @@ pub mod bytes { pub mod streaming {
                 match run_end(i@, 0, |b: u8| b != vstd::utf8::encode_utf8(t@)[0]) { None => is_inc(r), Some(e) => took(i, e, r) }),
     { move |i: &'a [u8]| unimplemented!() }
 
+    /// as take_until, Error if the tag is at the very start
+    #[verifier::external_body]
+    pub fn take_until1<'a>(t: &'static str) -> (f: impl Fn(&'a [u8]) -> IResult<&'a [u8], &'a [u8]>)
+        ensures
+            forall|i: &'a [u8]| #[trigger] call_requires(f, (i,)),
+            forall|i: &'a [u8], r: IResult<&'a [u8], &'a [u8]>| #[trigger] call_ensures(f, (i,), r) ==> (vstd::utf8::encode_utf8(t@).len() == 1 ==>
+                match run_end(i@, 0, |b: u8| b != vstd::utf8::encode_utf8(t@)[0]) { None => is_inc(r), Some(e) => if e == 0 { is_error(r) } else { took(i, e, r) } }),
+    { move |i: &'a [u8]| unimplemented!() }
+
     /// the exec predicate p computes the spec predicate f
     pub open spec fn pred_is<P: Fn(u8) -> bool>(p: P, f: spec_fn(u8) -> bool) -> bool {
         forall|b: u8, o: bool| #[trigger] call_ensures(p, (b,), o) ==> o == f(b)
@@ -308,6 +317,28 @@ pub mod sequence {
         ensures
             forall|i: &'a [u8]| #[trigger] call_requires(f, (i,)),
             forall|i: &'a [u8], r: IResult<&'a [u8], O1>| #[trigger] call_ensures(f, (i,), r) ==> seq2(first, second, i, r, |a: O1, b: O2| a),
+    { move |i: &'a [u8]| unimplemented!() }
+
+    #[verifier::external_body]
+    pub fn preceded<'a, O1, O2, F: Fn(&'a [u8]) -> IResult<&'a [u8], O1>, G: Fn(&'a [u8]) -> IResult<&'a [u8], O2>>(first: F, second: G)
+        -> (f: impl Fn(&'a [u8]) -> IResult<&'a [u8], O2>)
+        requires
+            forall|i: &'a [u8]| #[trigger] call_requires(first, (i,)),
+            forall|i: &'a [u8]| #[trigger] call_requires(second, (i,)),
+        ensures
+            forall|i: &'a [u8]| #[trigger] call_requires(f, (i,)),
+            forall|i: &'a [u8], r: IResult<&'a [u8], O2>| #[trigger] call_ensures(f, (i,), r) ==> seq2(first, second, i, r, |a: O1, b: O2| b),
+    { move |i: &'a [u8]| unimplemented!() }
+
+    #[verifier::external_body]
+    pub fn pair<'a, O1, O2, F: Fn(&'a [u8]) -> IResult<&'a [u8], O1>, G: Fn(&'a [u8]) -> IResult<&'a [u8], O2>>(first: F, second: G)
+        -> (f: impl Fn(&'a [u8]) -> IResult<&'a [u8], (O1, O2)>)
+        requires
+            forall|i: &'a [u8]| #[trigger] call_requires(first, (i,)),
+            forall|i: &'a [u8]| #[trigger] call_requires(second, (i,)),
+        ensures
+            forall|i: &'a [u8]| #[trigger] call_requires(f, (i,)),
+            forall|i: &'a [u8], r: IResult<&'a [u8], (O1, O2)>| #[trigger] call_ensures(f, (i,), r) ==> seq2(first, second, i, r, |a: O1, b: O2| (a, b)),
     { move |i: &'a [u8]| unimplemented!() }
 
     /// specified for 3-tuples (the only use)
